@@ -11,5 +11,21 @@ for id in $ids; do
   out=$(VERIF_SEED=${VERIF_SEED:-1} ./check $prop --tier quick 2>&1); rc=$?
   git -C /repo checkout -- .
   v=$(echo "$out" | grep '^VIOLATION' | grep -v no-failing-input-found | head -1); [ -z "$v" ] && v=$(echo "$out" | grep -m1 '^VIOLATION' || echo "-")
-  echo "$id exit=$rc $v" | tee -a seeded/RESULTS.txt
+  rp=$(echo "$v" | sed -n 's/.*replay=\([^ ]*\).*/\1/p')
+  how=$(python3 - "$rp" <<'PY'
+import json, sys
+try:
+    d = json.load(open(sys.argv[1]))
+    k = d.get("kind", "?")
+    if k == "model-implementation-disagreement":
+        k = "correspondence" + ("+oracle(" + d["oracle_failures"][0]["kind"] + ")" if d.get("oracle_failures") else "+spec-theorems")
+    elif k == "oracle-failure":
+        k = "oracle(" + d.get("oracle_kind", "") + ")"
+    print(k)
+except Exception:
+    print("-")
+PY
+)
+  summary=$(echo "$out" | tail -1 | sed 's/^[^:]*: //')
+  echo "$id exit=$rc $v how=$how [$summary]" | tee -a seeded/RESULTS.txt
 done
